@@ -16,5 +16,7 @@ one() {
   if [ $rc -eq 1 ]; then echo "$name: detected by $id ($first)"; else echo "$name: MISSED by $id rc=$rc"; fi
 }
 export -f one
-ls -d seeded/*/ | sed 's#/$##' | xargs -P "$PAR" -I{} bash -c "one {} $TIER"
+# SEEDS=<file with one stored name per line> restricts the run to those
+if [ -n "$SEEDS" ]; then list() { sed 's#^#seeded/#' "$SEEDS"; }; else list() { ls -d seeded/*/ | sed 's#/$##'; }; fi
+list | xargs -P "$PAR" -I{} bash -c "one {} $TIER"
 git checkout -- evidence 2>/dev/null
